@@ -213,8 +213,16 @@ def run(ctx):
     ctx.clause = ("abicompat feeds the libraries' keep-lists only from the application's undefined symbols, for both "
                   "library versions alike, applies them before comparing, and restricts each kind of interface even when "
                   "the application uses none of that kind")
-    ctx.rules = ["R-USEDONLY/FEED", "R-USEDONLY/DROP", "R-USEDONLY/EMPTY", "R-USEDONLY/MATCH"]
+    ctx.rules = ["R-USEDONLY/FEED", "R-USEDONLY/DROP", "R-USEDONLY/EMPTY", "R-USEDONLY/MATCH", "R-DERIVCACHE", "R-INVBREAK"]
     P = ctx.program(UNITS)
+    from rules import derivcache_rule
+    derivcache_rule.check(ctx, ctx.program(["src/abg-corpus.cc"]))
+    # /MATCH matches the application's undefined symbols by (name, version): the version of an undefined symbol is what
+    # get_version_needed_for_versym() finds by walking the Verneed / Vernaux records
+    from rules import invbreak_rule
+    PE = ctx.program(["src/abg-elf-helpers.cc"])
+    k = invbreak_rule.check(ctx, PE, [f for f in PE.all_funcs() if f.relfile.endswith("src/abg-elf-helpers.cc")])
+    ctx.floor("R-INVBREAK", "search loops (`if (..) break`) of the ELF helpers", k, 2)
     unit = P.units["tools/abicompat.cc"]
     fs = [f for f in unit.functions if f.n == "perform_compat_check_in_normal_mode" and not f.dep and f.cfg() is not None]
     if len(fs) != 1:
